@@ -11,7 +11,7 @@ RULE = ('random torch module trees (depth ≤ 4; Sequential/ModuleList/ModuleDic
         'lists; real KFACPreconditioner (and the GPT-NeoX register_modules) vs the Lean walk+filter model '
         'with re.search supplied as a truth table; hooks counted on every module; non-trivial = ≥2 eligible '
         'candidates and ≥1 pattern or shared/frozen module'
-        '; siblings whose names extend each other, names containing wrapper prefixes, Linear and Conv2d leaves with an extra (frozen) parameter besides weight and bias, patterns with inline global flags / capturing groups / anchors')
+        '; siblings whose names extend each other, names containing wrapper prefixes, one skip-list object edited in place between registrations, DEBUG logging enabled for the kfac loggers, Linear and Conv2d leaves with an extra (frozen) parameter besides weight and bias, patterns with inline global flags / capturing groups / anchors')
 TRUSTED = [
     'Lean 4.33 kernel; axioms audited ⊆ {propext, Classical.choice, Quot.sound}',
     'hand-written model KV.Reg tied to kfac/layers/register.py and kfac/gpt_neox/preconditioner.py:register_modules',
@@ -238,12 +238,25 @@ def run(ctx):
         for nm, k in rng.sample([('encoder', enc), ('decoder', dec), ('head', other)], 3):
             setattr(b, nm, k)
         return b
+    import logging
+    shared_pats = ['^never$', '^never$']      # ONE list object handed in again and again, edited in place between registrations
     for it_ in range(ctx.budget(500, 5000)):
         root = tied_frozen() if it_ < 3 else gen_tree(rng, C)
         pats = [] if it_ < 3 else gen_patterns(rng)
+        if it_ >= 3 and rng.random() < 0.25:
+            # the caller keeps one skip list and edits it in place (same object, same length, new patterns)
+            new = (gen_patterns(rng) + gen_patterns(rng) + ['^never$', '^never$'])[:2]
+            shared_pats[:] = new
+            pats = shared_pats
+            ctx.count('skip-list-edited-in-place')
         neox = rng.random() < 0.25 and it_ >= 3
+        # registration must not depend on the logging configuration of the application
+        debug = it_ >= 3 and rng.random() < 0.2
+        if debug:
+            logging.getLogger('kfac').setLevel(logging.DEBUG)
+            ctx.count('debug-logging')
         tree, ids, names, clsnames = encode(root)
-        case = {'tree': tree, 'patterns': pats, 'neox': neox}
+        case = {'tree': tree, 'patterns': list(pats), 'neox': neox, 'debug_logging': debug, 'in_place_list': pats is shared_pats}
         try:
             if neox:
                 layers = gp.register_modules(root, model_parallel_group=None, skip_layers=pats,
@@ -255,7 +268,9 @@ def run(ctx):
                 hooked = p
         except Exception as e:  # noqa: BLE001
             ctx.fail(f'registration raised {type(e).__name__}: {e}', case, 'raised')
+            logging.getLogger('kfac').setLevel(logging.NOTSET)
             continue
+        logging.getLogger('kfac').setLevel(logging.NOTSET)
         reg = []
         for m, (nm, layer) in layers.items():
             h = type(layer.module).__name__
